@@ -32,6 +32,9 @@ CLS_KINDS["Specialization"] = {"Specialization", "Mention"}
 NESTED_LOCALS = ["r?u=http://a/z", "http://other/x"]
 
 
+KNOWN_CAPTURE = "C18:bundle-captures-delegated-name"
+
+
 def declared_uri(cont, s):
     """URI of 'prefix:local' by the declarations alone: the container's own, else its document's (None: not decided here)"""
     if not isinstance(s, str) or ":" not in s:
@@ -72,6 +75,7 @@ def check_container(ctx, g, w, c, fails, flags):
             spellings.append(("print", s, res.uri if res is not None else None))
         kind, x, uri = g.choice(spellings) if g.chance(0.5) else spellings[g.rng.randrange(len(spellings))]
         for kind, x, uri in spellings if g.chance(0.4) else [(kind, x, uri)]:
+            captured = None
             if kind == "uri" and ":" not in x:
                 continue
             if kind == "print":
@@ -83,7 +87,11 @@ def check_container(ctx, g, w, c, fails, flags):
                 # (else the one its document declares)
                 ind = declared_uri(cont, x)
                 if ind is not None and ind != uri:
-                    fails.append(Failure("oracle", None, "%r is read as %s although the container declares that prefix as %s" % (
+                    if cont.is_bundle() and cont.document is not None and x.split(":", 1)[0] not in {n.prefix for n in cont.get_registered_namespaces()}:
+                        # the prefix is declared by the document only; the bundle answers from its own table of prefixes it has
+                        # seen for URIs registered under another prefix (root cause of known finding C03-1)
+                        captured = KNOWN_CAPTURE
+                    fails.append(Failure("oracle", captured, "%r is read as %s although the container declares that prefix as %s" % (
                         x, uri, ind), {"ops": list(w.ops)}))
                     uri = ind
             got = w.get_record(c, x)
@@ -91,7 +99,7 @@ def check_container(ctx, g, w, c, fails, flags):
             got_idx = w.outs[-1]["recs"]
             ctx.count("spelling:" + kind)
             if got_idx != exp:
-                sig = None
+                sig = captured
                 fails.append(Failure("oracle", sig, "get_record(%r) [%s spelling of %s] returned records %s, the record list has %s" % (
                     x, kind, q.uri, got_idx, exp), {"ops": list(w.ops), "expect_recs": exp}))
     # absent identifiers
